@@ -4,6 +4,8 @@ import (
 	"fmt"
 	"go/token"
 	"go/types"
+	"sort"
+	"strings"
 
 	"golang.org/x/tools/go/ssa"
 )
@@ -298,6 +300,7 @@ func (p *Program) verifyFunction(name string) (enc *Enc, err error) {
 			}
 			enc.obls = append(enc.obls, o)
 		}
+		p.refineObligations(f, enc, con, fn, name, args, outPath, alloc0)
 		if _, ok := con.Checks["lock"]; ok {
 			// every mutex acquired by the function is released on every return path (and none it did not hold is released)
 			if hs, ok := enc.stateSort["held"]; ok {
@@ -317,6 +320,149 @@ func (p *Program) verifyFunction(name string) (enc *Enc, err error) {
 }
 
 var _ = token.NoPos
+
+// refineObligations: a method under contract whose receiver type implements an in-package interface that has a contract
+// for the same method is checked against that interface contract, the one its dynamic callers assume: one `refine`
+// obligation per interface postcondition (the interface's names for receiver, parameters and results bound by position),
+// and one for the frame: the locations the method's own `assigns` lists are among those the interface's lists.
+// Not covered (listed as assumptions): the method's own preconditions at dynamic calls, ghost updates.
+func (p *Program) refineObligations(f *Frame, enc *Enc, con *Contract, fn *ssa.Function, name string, args []T, outPath T, alloc0 T) {
+	if fn.Signature.Recv() == nil {
+		return
+	}
+	recvT := fn.Signature.Recv().Type()
+	scope := p.pkg.Types.Scope()
+	names := scope.Names()
+	for _, in := range names {
+		tn, ok := scope.Lookup(in).(*types.TypeName)
+		if !ok {
+			continue
+		}
+		iface, ok := tn.Type().Underlying().(*types.Interface)
+		if !ok || !types.Implements(recvT, iface) {
+			continue
+		}
+		key := p.ifaceMethodKey(tn.Type(), fn.Name())
+		icon := p.ifaceCons[key]
+		if icon == nil || icon.Pure {
+			continue
+		}
+		var im *types.Func
+		for i := 0; i < iface.NumMethods(); i++ {
+			if iface.Method(i).Name() == fn.Name() {
+				im = iface.Method(i)
+			}
+		}
+		if im == nil {
+			continue
+		}
+		isig := im.Type().(*types.Signature)
+		boxed := f.box(recvT, args[0])
+		base := map[string]tv{"recv": {boxed, tn.Type()}, "self": {boxed, tn.Type()}}
+		for i := 0; i < isig.Params().Len() && 1+i < len(args); i++ {
+			if n := isig.Params().At(i).Name(); n != "" && n != "_" {
+				base[n] = tv{args[1+i], fn.Params[1+i].Type()}
+			}
+		}
+		rn := resultNames(icon, isig)
+		// "trust refine:Iface.Method[.label] reason": this part of the interface contract is not established for this
+		// implementation; it stays an assumption (reported with the other trust lines of the evidence)
+		trusted := func(nm string) bool {
+			for _, t := range con.Trust {
+				if fs := strings.Fields(t); len(fs) > 0 && strings.HasPrefix(fs[0], "refine:") && (fs[0] == nm || strings.HasPrefix(nm, fs[0]+".")) {
+					return true
+				}
+			}
+			return false
+		}
+		for k, e := range icon.Ensures {
+			if trusted("refine:" + key + "." + clauseName(e, k)) {
+				continue
+			}
+			props := e.Props
+			o := &Obl{Name: "refine:" + key + "." + clauseName(e, k), Class: "refine", Func: name, Path: outPath, Cond: True, Pos: p.pos(fn.Pos()), Props: props}
+			for _, r := range f.rets {
+				renv := map[string]tv{}
+				for n, v := range base {
+					renv[n] = v
+				}
+				for i, rv := range r.results {
+					if i < len(rn) {
+						renv[rn[i]] = tv{rv, f.resultTypes[i]}
+					}
+				}
+				tr := &Translator{f: f, env: renv, cur: r.st, old: f.entrySt, allocOld: alloc0}
+				sg := SubGoal{Path: r.path, Cond: tr.boolExpr(e.Expr)}
+				sg.Extra = append(sg.Extra, enc.extras...)
+				for _, u := range con.Uses {
+					func() {
+						defer func() {
+							if r := recover(); r != nil {
+								if _, ok := r.(trErr); !ok {
+									panic(r)
+								}
+							}
+						}()
+						tru := &Translator{f: f, env: map[string]tv{}, cur: r.st, old: f.entrySt, allocOld: alloc0}
+						for i, rv := range r.results {
+							tru.env[f.resultNames[i]] = tv{rv, f.resultTypes[i]}
+						}
+						sg.Extra = append(sg.Extra, tru.useInstance(u)...)
+					}()
+				}
+				o.Subs = append(o.Subs, sg)
+			}
+			enc.obls = append(enc.obls, o)
+		}
+		if icon.HasAssigns && con.HasAssigns && !trusted("refine:"+key+".assigns") {
+			canon := func(list []string, pn map[string]string) map[string]bool {
+				out := map[string]bool{}
+				for _, a := range list {
+					a = strings.TrimSpace(a)
+					head, rest := a, ""
+					for i, c := range a {
+						if !(c == '_' || c >= 'a' && c <= 'z' || c >= 'A' && c <= 'Z' || c >= '0' && c <= '9') {
+							head, rest = a[:i], a[i:]
+							break
+						}
+					}
+					if q, ok := pn[head]; ok {
+						head = q
+					}
+					out[head+rest] = true
+				}
+				return out
+			}
+			ipn := map[string]string{"recv": "$r", "self": "$r"}
+			for i := 0; i < isig.Params().Len(); i++ {
+				ipn[isig.Params().At(i).Name()] = fmt.Sprintf("$%d", i)
+			}
+			mpn := map[string]string{"recv": "$r", "self": "$r"}
+			for i, prm := range fn.Params {
+				if i == 0 {
+					mpn[prm.Name()] = "$r"
+				} else {
+					mpn[prm.Name()] = fmt.Sprintf("$%d", i-1)
+				}
+			}
+			allowed := canon(icon.Assigns, ipn)
+			var extra []string
+			for a := range canon(con.Assigns, mpn) {
+				if !allowed[a] {
+					extra = append(extra, a)
+				}
+			}
+			sort.Strings(extra)
+			cond := True
+			nm := "refine:" + key + ".assigns"
+			if len(extra) > 0 {
+				cond = False
+				nm += "(" + strings.Join(extra, ",") + ")"
+			}
+			enc.obls = append(enc.obls, &Obl{Name: nm, Class: "refine", Func: name, Path: outPath, Cond: cond, Pos: p.pos(fn.Pos())})
+		}
+	}
+}
 
 // verifyLemma: a lemma is a closed statement over spec functions and an arbitrary heap state; it is
 // proved once, in isolation, for arbitrary parameter values.
